@@ -269,6 +269,10 @@ class CallHookMixin:
     def __call__(self, expr, *args, **kwargs):
         return ("top", super().__call__(expr, *args, **kwargs))
 
+    # a handler switched off: nodes that name it are handled like their base class
+    # (this family is never handed to the optimizer, which cannot digest such an attribute)
+    map_tagged = None
+
 
 class C_hook_0(CallHookMixin, RenameMixin0, CachedIdentityMapper):
     pass
@@ -755,6 +759,16 @@ def generate(seed, tier):
             knobs["mode"] = r.choice(["", "_a", "_b"])
         if fault is None and r.random() < 0.08:
             knobs["thread"] = True
+        if r.random() < 0.05:
+            # the live instance is snapshotted (pickled / copied) by its owner and used on
+            knobs["snapshot"] = r.choice(["pickle", "deepcopy", "copy"])
+        if fam in ("subst", "count") and fault is None and mode == "strict" and r.random() < 0.06:
+            # a recycled instance: its owner runs __init__ on it again (with another
+            # substitution for the substitution mapper) and goes on using it
+            knobs["reinit"] = ([[v, r.choice([["n", "Variable", [["s", r.choice(["x", "q", "w"])]]],
+                                               ["i", 5]])]
+                                for v in r.sample(["x", "y", "z", "xa"], r.randint(1, 3))]
+                               if fam == "subst" else True)
         ops.append(["call", ins, et, args, kwargs, fault] + ([knobs] if knobs else []))
     if wide_name is not None:
         ins = r.choice([i for i in insts if not i["family"].startswith(("entry", "csemix_diff"))]
@@ -911,6 +925,7 @@ def execute(scenario, open_sigs):
     insts = {}
     optclasses = {}
     late_bound = {}
+    reinit_map = {}
     pool_memo = {}
     violation = None
     steps = 0
@@ -1010,7 +1025,8 @@ def execute(scenario, open_sigs):
         if fam == "csemix_diff":
             return cls(p.Variable(c.get("var", "x")))
         if fam == "subst":
-            mp = {k: B.build(v, fresh=True) for k, v in c.get("map", [])}
+            mp = {k: B.build(v, fresh=True)
+                  for k, v in reinit_map.get(ins["inst"], c.get("map", []))}
             sim = SimState()
             if not fresh:
                 st.sim = sim
@@ -1153,6 +1169,36 @@ def execute(scenario, open_sigs):
                 if st.model is not None and isinstance(getattr(st.model, "context", None), dict):
                     st.model.context[late["var"]] = B.build(late["value"])
                 probe("late_bindings")
+            if knobs.get("snapshot"):
+                import copy as _copy
+                import pickle as _pickle
+                try:
+                    {"pickle": lambda o: _pickle.dumps(o), "deepcopy": _copy.deepcopy,
+                     "copy": _copy.copy}[knobs["snapshot"]](st.obj)
+                    probe("instance_snapshots")
+                except Exception:  # noqa: BLE001
+                    pass            # fakes and closures in a context need not be picklable
+            if knobs.get("reinit") and fam in ("subst", "count") and not st.faulted:
+                if fam == "subst":
+                    reinit_map[ins["inst"]] = knobs["reinit"]
+                    mp2 = {k: B.build(v, fresh=True) for k, v in knobs["reinit"]}
+                    sim2 = st.sim
+
+                    def subst_func2(e_, mp=mp2, sim=sim2):
+                        sim.hit("subst")
+                        if isinstance(e_, p.Variable):
+                            return mp.get(e_.name)
+                        return None
+                    st.obj.__init__(subst_func2)
+                else:
+                    st.obj.__init__()
+                # from here on it is held to what a new instance would do
+                st.once.clear()
+                st.allow.clear()
+                st.count_model.clear()
+                st.count_upper.clear()
+                st.async_hits = 0
+                probe("instances_reinitialised")
             if "mode" in knobs and fam == "state":
                 st.mode = knobs["mode"]
                 st.obj.mode = st.mode
